@@ -16,6 +16,21 @@ MODULES_TIME = [
 ]
 
 
+# the clock of the scheduler incarnation currently running in this process;
+# cylc modules are patched once with the module-level trampolines below, so a
+# later incarnation in the same process (in-process phases) gets its own clock
+_CUR = None
+
+
+def _vtime():
+    return _CUR.now
+
+
+def _vsleep(secs=0):
+    if secs and secs > 0:
+        _CUR.now += float(secs)
+
+
 class VClock:
     def __init__(self, t0: float):
         self.now = float(t0)
@@ -33,20 +48,22 @@ class VClock:
         self.now += dt
 
     def install(self):
+        global _CUR
         import time as _time
         real_time, real_sleep = _time.time, _time.sleep
+        _CUR = self
         for name in MODULES_TIME:
             try:
                 mod = importlib.import_module(name)
             except ImportError:
                 continue
-            if getattr(mod, 'time', None) is real_time:
-                mod.time = self.time
+            if getattr(mod, 'time', None) in (real_time, _vtime):
+                mod.time = _vtime
                 self.patched.append(name + '.time')
-            if getattr(mod, 'sleep', None) is real_sleep:
-                mod.sleep = self.sleep
+            if getattr(mod, 'sleep', None) in (real_sleep, _vsleep):
+                mod.sleep = _vsleep
                 self.patched.append(name + '.sleep')
-            if getattr(mod, 'now', None) is real_time:
-                mod.now = self.time
+            if getattr(mod, 'now', None) in (real_time, _vtime):
+                mod.now = _vtime
                 self.patched.append(name + '.now')
         return self.patched
